@@ -23,6 +23,18 @@ documented in utils.py:
                raised from a ValueError, a plain exception that merely has a transient __context__ (no `from`),
                ClientPayloadError with another message
   cancelled    asyncio.CancelledError raised by the callable (BaseException: must pass through)
+Response documents: every classification that reads the response *text* (403 + 'rateLimitExceeded' in the body for
+is_transient_error / is_rate_limit_error; 400 + one of the two known messages in the body for
+is_limited_retries_error), alone and as __cause__, is also driven with documents of seeded shape (the call's 'body<k>'
+stream; 0 = the short canonical body): Google's JSON error document (the message twice, then domain / reason), a
+newer-style document with debug details first, the OAuth token endpoint's error / error_description, each padded so
+that the deciding text starts at about 90, 239 (ends at 256), 248 (across 256), 300, 700, 1016, 1100, 2500, 4088,
+4200, 9000 or 70000 characters and is followed by 0, 400 or 5000 more.  The exception is built by the real
+hailtop.httpx.ClientResponseError constructor with `body=` as hailtop.httpx.ClientSession.request does, so whatever
+that constructor keeps of the text is what the classifiers see.  Families 'docs' / 'docs_permanent' add: 503 / 500 /
+429 with long documents (status decides), and -- permanent -- documents of the same shapes without the deciding text
+(403 other reason, 400 other message, 400 other grant error) or with it under a status the lists do not pair it with
+(400 / 401 + rateLimitExceeded, 403 + user-project message, 404 + invalid-grant message).
 The jitter the repository draws with random.randrange is taken from the run's 'jitter' stream (module function
 patched for the duration of the run and restored in a finally), so the run stays a function of the seed.  A
 canceller may cancel the retrying task during a back-off sleep.
@@ -78,16 +90,23 @@ Independently seeded changes (tools/run_seeded.py <name> C21, quick tier), all e
   C21-3 hailtop.httpx branch removed from is_transient_error   not_retried/rate_limit/chained_cause,
         sync/not_retried/rate_limit/httpx_403_rate_limit, sync/not_retried/rate_limit/chained_cause
         (missed by the first version of this scenario, which had neither chained rate-limit errors nor the sync helper)
+  C21-4 hailtop.httpx.ClientResponseError keeps only the first 256 characters of the body
+        not_retried/rate_limit/httpx_403_rate_limit, not_retried/limited_within_five/httpx_400_user_project,
+        .../httpx_400_invalid_grant, .../chained_cause and the sync/ variants (missed while every body was a short
+        hand-written string)
 """
 import asyncio
 import errno
+import functools
 import socket
 
 from worlds.common import simulate
 
 NAME = 'prims.retry'
 RULE = ('1..3 sequential retry calls; scripted callable raising 0..12 (thorough 0..20) exceptions drawn from labelled '
-        'families (transient, rate-limit, limited-retry, permanent, chained, CancelledError) then returning; attempt '
+        'families (transient, rate-limit, limited-retry, permanent, chained, CancelledError) then returning; error '
+        'responses whose class depends on the response text carry documents of seeded length (deciding text at offset '
+        '~0..70000, 0..5000 characters after it) built through the real hailtop.httpx.ClientResponseError; attempt '
         'durations 0..4 ticks; jitter drawn from the run\'s stream; 0..1 cancellation of the retrying task')
 COMPONENTS = {
     'hailtop.utils.utils.retry_transient_errors': 'real',
@@ -120,6 +139,94 @@ class Wrapped(Exception):
     """a plain exception used as the outer link of a `raise ... from ...` chain."""
 
 
+# -- response documents for the classifications that read the response text ----------------------------------------
+# Offsets (characters from the start of the body) at which the deciding text starts; 0 = the short canonical body.
+# The values sit before, across and after the lengths at which an error body is plausibly clipped (256, 1 Ki, 4 Ki,
+# 64 Ki); a target below a template's fixed preamble means "as early as the template allows".
+MARKER_OFFSETS = (0, 90, 248, 239, 300, 700, 1016, 1100, 2500, 4088, 4200, 9000, 70000)
+MARKER_OFFSET_WEIGHTS = (4,) + (1,) * (len(MARKER_OFFSETS) - 1)
+TAIL_LENGTHS = (0, 400, 5000)       # characters of further document after the deciding text
+TAIL_WEIGHTS = (3, 1, 1)
+RATE_LIMIT_REASON = 'rateLimitExceeded'
+
+_FILL = {
+    'quota': "Quota exceeded for quota metric 'Queries' and limit 'Queries per minute per user' of service "
+             "'storage.googleapis.com' for consumer 'project_number:1234567890'. The project exceeded the rate limit for "
+             "creating and deleting buckets or for object mutations on a single object name. ",
+    'debug': "at com.google.cloud.storage.spi.v1.HttpStorageRpc.translate(HttpStorageRpc.java:233) "
+             "at com.google.cloud.storage.StorageImpl.lambda$get$5(StorageImpl.java:256) ",
+    'html': '<p>The server encountered a temporary error and could not complete your request.</p>'
+            '<p>Please try again in 30 seconds.</p>',
+}
+
+
+def _filler(n, unit):
+    return (unit * (n // len(unit) + 1))[:n] if n > 0 else ''
+
+
+def _error_document(template, status, marker, shape):
+    """Response text of a failed request, in the shapes the services send: Google's JSON error document repeats the
+    human-readable message before the machine-readable reason, newer API front ends put debug details first, the
+    OAuth token endpoint answers with error / error_description.  `marker` is the text that decides the
+    classification (None: a document of the same shape without it); shape = (index into MARKER_OFFSETS, index into
+    TAIL_LENGTHS) or None for the short canonical body."""
+    off = MARKER_OFFSETS[shape[0]] if shape else 0
+    tail = TAIL_LENGTHS[shape[1]] if shape else 0
+    canonical = off == 0 and tail == 0
+    if template == 'google_reason':
+        reason = marker or 'forbidden'
+        if canonical:
+            return '{"error": {"errors": [{"reason": "%s"}]}}' % reason
+        a = '{\n "error": {\n  "code": %d,\n  "message": "' % status
+        b = '",\n  "errors": [\n   {\n    "message": "'
+        c = '",\n    "domain": "usageLimits",\n    "reason": "'
+        n = max(0, off - len(a) - len(b) - len(c))
+        msg1, msg2 = _filler(n - n // 2, _FILL['quota']), _filler(n // 2, _FILL['quota'])
+        doc = a + msg1 + b + msg2 + c
+        pos = len(doc)
+        doc += reason + '"\n   }\n  ]'
+        if tail:
+            doc += ',\n  "details": [\n   {\n    "@type": "type.googleapis.com/google.rpc.DebugInfo",\n    "detail": "' + \
+                   _filler(tail, _FILL['debug']) + '"\n   }\n  ]'
+        doc += ',\n  "status": "PERMISSION_DENIED"\n }\n}\n'
+    elif template == 'google_message':
+        message = marker or 'Invalid argument.'
+        if canonical:
+            return '{"message": "%s"}' % message
+        a = '{\n "error": {\n  "code": %d,\n  "status": "INVALID_ARGUMENT",\n  "details": [\n   {\n    "@type": ' \
+            '"type.googleapis.com/google.rpc.DebugInfo",\n    "detail": "' % status
+        b = '"\n   }\n  ],\n  "message": "'
+        doc = a + _filler(max(0, off - len(a) - len(b)), _FILL['debug']) + b
+        pos = len(doc)
+        doc += message + '",\n  "errors": [\n   {\n    "message": "' + message + '",\n    "domain": "global",\n' \
+               '    "reason": "invalid"'
+        if tail:
+            doc += ',\n    "extendedHelp": "' + _filler(tail, _FILL['quota']) + '"'
+        doc += '\n   }\n  ]\n }\n}\n'
+    elif template == 'oauth':
+        message = marker or 'Invalid JWT Signature.'
+        if canonical:
+            return message
+        a = '{\n  "error_uri": "https://developers.google.com/identity/protocols/oauth2/service-account#error-codes'
+        b = '",\n  "error": "invalid_grant",\n  "error_description": "'
+        doc = a + _filler(max(0, off - len(a) - len(b)), '?hint=' + _FILL['debug'].replace(' ', '+')) + b
+        pos = len(doc)
+        doc += message + '"'
+        if tail:
+            doc += ',\n  "trace": "' + _filler(tail, _FILL['debug']) + '"'
+        doc += '\n}\n'
+    else:
+        assert template == 'html' and marker is None
+        if canonical:
+            return 'oops'
+        doc = '<html><head><title>Error %d</title></head><body>' % status + _filler(off + tail, _FILL['html']) + \
+              '</body></html>'
+        pos = None
+    if marker is not None:
+        assert doc.count(marker) >= 1 and doc.index(marker) == pos and pos >= off, (template, shape, pos)
+    return doc
+
+
 def _families():
     """label -> [(kind, constructor)]; constructors build a fresh exception object each time."""
     import aiohttp
@@ -142,18 +249,30 @@ def _families():
     def httpx(status, body=''):
         return lambda: hx.ClientResponseError(ri, (), body=body, status=status, message=f'status {status}')
 
+    def httpx_doc(status, template, marker):
+        """an error response whose classification depends on (or must not be changed by) the response *text*: the
+        constructor takes a shape (marker offset, tail length) drawn by the caller, builds a realistic document and
+        hands it to the real hailtop.httpx.ClientResponseError constructor exactly as ClientSession.request does
+        (`body=` keyword); the classifiers then read whatever that constructor stored."""
+        def make(shape=None):
+            body = _error_document(template, status, marker, shape)
+            return hx.ClientResponseError(ri, (), body=body, status=status, message=f'status {status}')
+        make.shaped = True
+        return make
+
     def oserr(cls, name):
         return lambda: cls(getattr(errno, name), name)
 
     def chain(outer, inner_ctor, depth=1):
-        def make():
-            e = inner_ctor()
+        def make(shape=None):
+            e = inner_ctor(shape) if getattr(inner_ctor, 'shaped', False) else inner_ctor()
             for _ in range(depth):
                 try:
                     raise outer('wrapped') from e
                 except outer as w:  # pylint: disable=catching-non-exception
                     e = w
             return e
+        make.shaped = getattr(inner_ctor, 'shaped', False)
         return make
 
     def context_only(inner_ctor):
@@ -194,7 +313,7 @@ def _families():
         if i % 3 == 0:
             chained.append((f'chain2_{k}', chain(Wrapped, c, 2)))
     rate = [('aiohttp_429', aio(429)), ('httpx_429', httpx(429, 'slow down')),
-            ('httpx_403_rate_limit', httpx(403, '{"error": {"errors": [{"reason": "rateLimitExceeded"}]}}'))]
+            ('httpx_403_rate_limit', httpx_doc(403, 'google_reason', RATE_LIMIT_REASON))]
     chained_rate = []
     for k, c in rate:
         chained_rate.append((f'chain1_{k}', chain(Wrapped, c, 1)))
@@ -202,8 +321,8 @@ def _families():
     bare_reset = ConnectionResetError
     bare_refused = ConnectionRefusedError
     limited = [('conn_reset_bare', bare_reset), ('conn_refused_bare', bare_refused),
-               ('httpx_400_user_project', httpx(400, f'{{"message": "{KNOWN_400_BODIES[0]}"}}')),
-               ('httpx_400_invalid_grant', httpx(400, KNOWN_400_BODIES[1])),
+               ('httpx_400_user_project', httpx_doc(400, 'google_message', KNOWN_400_BODIES[0])),
+               ('httpx_400_invalid_grant', httpx_doc(400, 'oauth', KNOWN_400_BODIES[1])),
                ('chain1_conn_reset_bare', chain(Wrapped, bare_reset, 1)),
                ('chain1_conn_refused_bare', chain(RuntimeError, bare_refused, 1))]
     permanent = []
@@ -222,8 +341,35 @@ def _families():
         ('context_only_timeout', context_only(asyncio.TimeoutError)),
         ('payload_other_message', lambda: aiohttp.ClientPayloadError('Not enough data to satisfy content length')),
     ]
+    # Families of their own (entries carry their label), so that the older families keep their composition.
+    # docs: retried responses whose document has a seeded shape -- classified by status alone (whatever the document
+    # says or however long it is must not matter) or by the document (limited-retry 400s as __cause__).
+    docs = [
+        ('httpx_503_long_body', httpx_doc(503, 'html', None), 'transient'),
+        ('httpx_500_rate_limit_text', httpx_doc(500, 'google_reason', RATE_LIMIT_REASON), 'transient'),
+        ('httpx_429_long_body', httpx_doc(429, 'google_reason', None), 'rate_limit'),
+        ('httpx_403_rate_limit', httpx_doc(403, 'google_reason', RATE_LIMIT_REASON), 'rate_limit'),
+        ('httpx_400_user_project', httpx_doc(400, 'google_message', KNOWN_400_BODIES[0]), 'limited'),
+        ('httpx_400_invalid_grant', httpx_doc(400, 'oauth', KNOWN_400_BODIES[1]), 'limited'),
+        ('chain1_httpx_400_user_project', chain(Wrapped, httpx_doc(400, 'google_message', KNOWN_400_BODIES[0]), 1),
+         'limited'),
+        ('chain1_httpx_400_invalid_grant', chain(RuntimeError, httpx_doc(400, 'oauth', KNOWN_400_BODIES[1]), 1),
+         'limited'),
+    ]
+    # docs_permanent: documents of the same shapes and lengths as the retried ones, without the deciding text or
+    # with the deciding text under a status the lists do not pair it with
+    docs_permanent = [
+        ('httpx_403_other_reason', httpx_doc(403, 'google_reason', None), 'permanent'),
+        ('httpx_400_other_message', httpx_doc(400, 'google_message', None), 'permanent'),
+        ('httpx_400_other_grant_error', httpx_doc(400, 'oauth', None), 'permanent'),
+        ('httpx_400_rate_limit_text', httpx_doc(400, 'google_reason', RATE_LIMIT_REASON), 'permanent'),
+        ('httpx_401_rate_limit_text', httpx_doc(401, 'google_reason', RATE_LIMIT_REASON), 'permanent'),
+        ('httpx_403_user_project_text', httpx_doc(403, 'google_message', KNOWN_400_BODIES[0]), 'permanent'),
+        ('httpx_404_invalid_grant_text', httpx_doc(404, 'oauth', KNOWN_400_BODIES[1]), 'permanent'),
+        ('chain1_httpx_403_other_reason', chain(Wrapped, httpx_doc(403, 'google_reason', None), 1), 'permanent'),
+    ]
     return {'transient': transient, 'chained': chained, 'rate_limit': rate, 'chained_rate': chained_rate,
-            'limited': limited, 'permanent': permanent}
+            'limited': limited, 'permanent': permanent, 'docs': docs, 'docs_permanent': docs_permanent}
 
 
 _FAMS = None
@@ -309,20 +455,34 @@ def run(ctx):
             log.add(cur[0], 'sync_sleep', int(round(seconds * 1000)))
 
     # -- one retry call ------------------------------------------------------------------------------
-    def draw_script(s, helper):
+    def draw_script(s, helper, bs):
+        """-> (script, shapes): script[i] = (label, kind, constructor); shapes[i] = None or the (marker offset class,
+        tail class) of the response document of failure i (drawn from the call's 'body' stream bs; 0, 0 = the short
+        canonical body)."""
         length = s.draw(max_len + 1)
         script = []
+        shapes = []
         for _ in range(length):
-            fam = ('transient', 'chained', 'rate_limit', 'limited', 'permanent', 'cancelled', 'chained_rate')[
-                s.weighted([10, 4, 2, 4, 1, 1 if helper != 'all' else 0, 2])]
+            fam = ('transient', 'chained', 'rate_limit', 'limited', 'permanent', 'cancelled', 'chained_rate', 'docs',
+                   'docs_permanent')[s.weighted([20, 8, 4, 8, 2, 2 if helper != 'all' else 0, 4, 2, 1])]
             if fam == 'cancelled':
                 script.append(('cancelled', 'cancelled_error', asyncio.CancelledError))
+                shapes.append(None)
                 continue
-            kind, ctor = s.pick(fams[fam])
+            picked = s.pick(fams[fam])
+            kind, ctor = picked[0], picked[1]
             # a plain exception is labelled by its cause: the documented lists are applied along __cause__
-            label = {'chained': 'transient', 'chained_rate': 'rate_limit'}.get(fam, fam)
+            label = picked[2] if len(picked) > 2 else {'chained': 'transient', 'chained_rate': 'rate_limit'}.get(fam, fam)
+            shape = None
+            if getattr(ctor, 'shaped', False):
+                shape = (bs.weighted(MARKER_OFFSET_WEIGHTS), bs.weighted(TAIL_WEIGHTS))
+                if shape == (0, 0):
+                    shape = None
+                else:
+                    ctor = functools.partial(ctor, shape)
             script.append((label, kind, ctor))
-        return script
+            shapes.append(shape)
+        return script, shapes
 
     def expected(script, helper, max_errors, n_att_obs):
         """-> (n_invocations, index of the raised failure or None)."""
@@ -353,10 +513,10 @@ def run(ctx):
         helper = ('plain', 'debug', 'delayed', 'all_n', 'all', 'sync')[s.weighted([6, 2, 2, 1, 1, 2])]
         max_errors = s.rint(1, 8)
         warn_delay = s.pick([0, 1500, 10_000_000])
-        script = draw_script(s, helper)
+        script, shapes = draw_script(s, helper, ctx.stream(f'body{k}'))
         durs = [s.ticks(4) for _ in range(len(script) + 1)]
         sentinel = ('result', k)
-        rec = {'attempts': [], 'fails': [], 'exc_objs': [], 'cancel': None, 'sleeps': [], 'mark': 0}
+        rec = {'attempts': [], 'fails': [], 'exc_objs': [], 'cancel': None, 'sleeps': [], 'mark': 0, 'shapes': shapes}
         name = f'r{k}'
         args_seen = []
 
@@ -374,7 +534,7 @@ def run(ctx):
                 label, kind, ctor = script[i]
                 e = ctor()
                 rec['exc_objs'].append(e)
-                rec['fails'].append((log.add(name, 'fail', i + 1, label, kind), now()))
+                rec['fails'].append((log.add(name, 'fail', i + 1, label, kind, *(shapes[i] or ())), now()))
                 ctx.fault(f'op.{label}')
                 raise e
             log.add(name, 'op_returns')
@@ -395,7 +555,7 @@ def run(ctx):
                 label, kind, ctor = script[i]
                 e = ctor()
                 rec['exc_objs'].append(e)
-                rec['fails'].append((log.add(name, 'fail', i + 1, label, kind), now()))
+                rec['fails'].append((log.add(name, 'fail', i + 1, label, kind, *(shapes[i] or ())), now()))
                 ctx.fault(f'op.{label}')
                 raise e
             log.add(name, 'op_returns')
@@ -496,13 +656,20 @@ def run(ctx):
                 return label
             return f'{label}/chained_cause' if kind.startswith('chain') else f'{label}/{kind}'
 
+        def doc_note(i):
+            shape = rec['shapes'][i] if i < len(rec['shapes']) else None
+            if shape is None:
+                return ''
+            return (f'; response document with the deciding text at offset >= {MARKER_OFFSETS[shape[0]]}, followed by '
+                    f'>= {TAIL_LENGTHS[shape[1]]} more characters')
+
         if n_att < n_exp:
             # stopped early: the failure of the last attempt was not retried although the model says so
             i = n_att - 1
             if 0 <= i < len(script):
                 flag('model', f'{pfx}/not_retried/{cls_of(i, False)}',
-                     f'{name} ({helper}): failure {i + 1} ({script[i][1]}) ended the call with {outcome}; the policy '
-                     f'retries it')
+                     f'{name} ({helper}): failure {i + 1} ({script[i][1]}{doc_note(i)}) ended the call with {outcome}; '
+                     f'the policy retries it')
             else:
                 flag('model', f'{pfx}/wrong_attempt_count', f'{name}: {n_att} attempts, expected {n_exp}')
             return
@@ -510,7 +677,8 @@ def run(ctx):
             i = n_exp - 1
             if raised_idx is not None:
                 flag('model', f'{pfx}/retried/{cls_of(i, True)}',
-                     f'{name} ({helper}): failure {i + 1} ({script[i][1]}) was retried; the policy raises it at once')
+                     f'{name} ({helper}): failure {i + 1} ({script[i][1]}{doc_note(i)}) was retried; the policy raises '
+                     f'it at once')
             else:
                 flag('model', f'{pfx}/wrong_attempt_count', f'{name}: {n_att} attempts, expected {n_exp}')
             return
@@ -536,12 +704,23 @@ def run(ctx):
                 return
             if label == 'permanent':
                 ctx.probe('permanent_raised_first_try' if raised_idx == 0 else 'permanent_after_retries')
+                if rec['shapes'][raised_idx] is not None:
+                    ctx.probe('permanent_long_document_raised')
                 if kind.startswith('context_only'):
                     ctx.probe('context_only_not_retried')
             if label == 'limited' and raised_idx >= 5:
                 ctx.probe('limited_sixth_failure_raised' if raised_idx == 5 else 'limited_later_failure_raised')
         if helper in ('plain', 'debug', 'delayed', 'sync'):
             for i, (label, kind, _) in enumerate(script[:n_att - 1]):
+                shape = rec['shapes'][i]
+                if shape is not None and label in ('rate_limit', 'limited') and '_long_body' not in kind:
+                    # retried because of a text that starts at a seeded offset of a long response document
+                    off = MARKER_OFFSETS[shape[0]]
+                    ctx.probe('decided_by_text_past_4096' if off > 4096 else 'decided_by_text_past_1024' if off > 1024
+                              else 'decided_by_text_past_256' if off > 256 else 'decided_by_text_across_256'
+                              if off > 239 else 'decided_by_text_before_256')
+                    if shape[1]:
+                        ctx.probe('decided_by_text_before_long_tail')
                 if label == 'limited':
                     ctx.probe('limited_within_five_retried')
                 elif label == 'rate_limit':
